@@ -229,8 +229,11 @@ def _sim(kinds, coef, k0, style, depth, named, multi):
         sim = hs.sim(type("MySim", (), d))
     else:  # add-methods
         sim = hs.Sim(tb=tb)
-        for a in attrs:
-            sim.add(a)
+        if k0 % 2:  # (the documented "one or more" form: everything in one call)
+            sim.add(*attrs)
+        else:
+            for a in attrs:
+                sim.add(a)
     env.COUNTS["reached"] += 1
     before = [(type(a).__name__, getattr(a, "name", None)) for a in attrs]
     try:
